@@ -36,7 +36,13 @@ def op_job(name, entry, td, te, fam, timeout, extra=None, prop="ASSERT_C02", wei
 def jobs(tier, prop="ASSERT_C02"):
     J = []
     J.append(op_job("add_v4_d1", "harness_add", 1, 2, 4, 900, prop=prop))
-    J.append(op_job("remove_v4_d1", "harness_remove", 1, 2, 4, 900, prop=prop))
+    J.append(op_job("remove_v4_d1", "harness_remove", 1, 2, 4, 2400, prop=prop))
+    # fixed shapes that make trie_remove choose between two children (both leaves; one leaf + one inner node)
+    for nm, td, shape, nrecs in (("root2leaves", 1, 7, "1,1,1"), ("leafL_innerR", 2, 39, "1,1,1,1,1,1,1"), ("innerL_leafR", 2, 15, "1,1,1,1,1,1,1")):
+        J.append(op_job("remove_v4_%s" % nm, "harness_remove", td, 1, 4, 2400, prop=prop,
+                        extra=["TL_SHAPE=%d" % shape, "TL_NRECS=%s" % nrecs],
+                        what="harness_remove on an IPv4 trie of fixed shape %s (one record per node, all field values symbolic) + "
+                             "arbitrary 0/1-node trie of the other family" % nm))
     J.append(op_job("foreach_v4_d1", "harness_for_each", 1, 2, 4, 900, prop=prop))
     for nm, shape, nrecs, te in (("empty", 0, "1", 1), ("n1", 1, "1", 1), ("n2", 1, "2", 2)):
         J.append(op_job("srcremove_v4_d0_%s" % nm, "harness_src_remove", 0, te, 4, 1200, prop=prop,
